@@ -6,11 +6,15 @@ META = {
     "level": "proof",
     "technique": "Coq proof (digit-list model refines arithmetic mod 2^w, all widths/operands) + extracted-model vs C++ differential correspondence with spec oracle",
     "text": "Theorems in coq/Properties_C10.v: every operator of the digit-list model (literal transcription of the C++ loops with "
-            "carry/borrow variables) equals exact arithmetic modulo 2^(16n) for every digit count n and all operands; the model is tied "
+            "carry/borrow variables) equals exact arithmetic modulo 2^(16n) for every digit count n and all operands, incl. total division "
+            "(fuel bound 2^w proved, exact iteration count), shifts by any amount, todouble as exact truncation, constructors, free operators "
+            "with unsigned/signed built-in operands on both sides, self-aliasing compound forms, ring laws on digit arrays, every "
+            "numeric_limits member, hash_value (bit-exact model of hash_combiner<8>), stream insertion; the model is tied "
             "to dune/common/bigunsignedint.hh on every run by running extracted model and the C++ class (12 widths) on identical "
-            "exhaustive digit-alphabet and random operands and by re-reading the digit-width constants from the source.",
+            "exhaustive digit-alphabet, boundary-directed and random operands and by re-reading ~45 constants from the source (tools/params.d/C10.py), "
+            "which the `consts`/`limits` cases compare with the compiled values.",
     "note": "Trusted: Coq kernel, extraction, OCaml driver, C++ harness (operands written through the object representation), "
-            "g++; hash_range internals; std::ldexp exactness.",
+            "g++; std::hash<uint16_t> = identity; std::ldexp exactness.",
     "design_ref": "DESIGN.md section 4 C10",
 }
 
@@ -79,11 +83,16 @@ def gen(ctx):
                 cases.append("%d touint %s" % (k, a))
         cases.append("%d todouble %s" % (k, "0000" * n))
         cases.append("%d incr %s" % (k, "ffff" * n))
-        # all shift counts
+        # all shift counts below w; shl also at and beyond w (any amount), shr up to w+15 (beyond that the code
+        # indexes out of bounds: C10_shift_any, not executed on the impl)
         w = 16 * n
         for a in [rval(n) for _ in range(2 if quick else 12)] + ["ffff" * n, "0000" * (n - 1) + "0001", "8000" + "0000" * (n - 1)]:
             for s in range(w):
                 cases.append("%d shl %s %d" % (k, a, s))
+                cases.append("%d shr %s %d" % (k, a, s))
+            for s in [w, w + 1, w + 15, w + 16, w + 17, 2 * w, 3 * w + 5, 100000]:
+                cases.append("%d shl %s %d" % (k, a, s))
+            for s in [w, w + 1, w + 7, w + 15]:
                 cases.append("%d shr %s %d" % (k, a, s))
         # division: a = q*b + r with small quotient (the code subtracts q times)
         for _ in range(40 if quick else 600):
@@ -102,6 +111,26 @@ def gen(ctx):
             fmt = "%0" + str(4 * n) + "x"
             for op in ["div", "mod"]:
                 cases.append("%d %s %s %s %d" % (k, op, fmt % av, fmt % bv, qq + 2))
+        # division boundaries aimed at the case splits of the proofs: quotient 0 (a < b), a == b, exact multiples,
+        # remainder b-1, divisor 1 with a small dividend, dividend below 2^32 with a divisor above it, operands that
+        # differ in the top digit only, fuel exactly quotient+1 (the least sufficient fuel: C10_div_fuel_exact)
+        fmt = "%0" + str(4 * n) + "x"
+        M = 1 << w
+        for _ in range(6 if quick else 60):
+            bv = max(1, int(rval(n), 16))
+            pairs = [(rng.randrange(bv), bv), (bv, bv), (min(M - 1, bv * rng.randrange(1, 50)), bv),
+                     (min(M - 1, bv * rng.randrange(1, 50) + bv - 1), bv), (rng.randrange(3000), 1),
+                     (rng.randrange(min(M, 1 << 32)), bv), (bv, max(1, bv - (1 << (16 * (n - 1))) if bv >= (1 << (16 * (n - 1))) else bv))]
+            for av, dv in pairs:
+                qq = av // dv
+                if qq > 70000:
+                    continue
+                for op in ["div", "mod"]:
+                    cases.append("%d %s %s %s %d" % (k, op, fmt % av, fmt % dv, qq + 1))
+        # both operands the same object: x OP= x
+        for a in [rval(n) for _ in range(3 if quick else 20)] + ["0000" * n, "ffff" * n, "0000" * (n - 1) + "0001"]:
+            for o in (BIN + ["div", "mod"]) if a in ("0000" * n, "ffff" * n) or rng.random() < 0.5 else BIN:
+                cases.append("%d self %s %s 3" % (k, o, a))
         for _ in range(N // 3 + 5):
             x = rng.choice([0, 1, 0xffff, 0x10000, 0xffffffff, 0x100000000, (1 << 64) - 1, 1 << 63, rng.randrange(1 << 64), rng.randrange(1 << 33)])
             cases.append("%d assign %x" % (k, x))
@@ -109,6 +138,10 @@ def gen(ctx):
             cases.append("%d signed %d" % (k, x))
             if -(1 << 31) <= x < (1 << 31):
                 cases.append("%d signed %d int" % (k, x))
+            cases.append("%d signed %d cast" % (k, x))
+        for x in [-128, -1, 0, 1, 127]:
+            for ty in ["schar", "short", "long"]:
+                cases.append("%d signed %d %s" % (k, x, ty))
         # mixed operations with a built-in unsigned on either side (free operator templates)
         for _ in range(N // 4 + 6):
             a = rval(n); u = rng.choice([0, 1, 2, 0xffff, 0x10000, 0xffffffff, (1 << 64) - 1, rng.randrange(1 << 64), rng.randrange(1 << 17)])
@@ -123,9 +156,36 @@ def gen(ctx):
                 if q <= 5000:
                     for o in ["div", "mod"]:
                         cases.append("%d %s %s %s %x %d" % (k, side, o, a, u, q + 2))
+            for o in ["and", "or", "xor"]:
+                cases.append("%d mixl %s %s %x 0" % (k, o, a, u))
+        # mixed operations with a SIGNED built-in on either side (negative: to be rejected as in construction)
+        for _ in range(N // 10 + 6):
+            a = rval(n); y = rng.choice([-1, -2, -65536, -(1 << 31), -(1 << 61), -rng.randrange(1, 1 << 40), 0, 1, 65535, 65536,
+                                          (1 << 31) - 1, 1 << 40, (1 << 61) + 5, rng.randrange(1 << 20)])
+            av = int(a, 16)
+            for side in ["mixsl", "mixsr"]:
+                for o in ["add", "sub", "mul"]:
+                    cases.append("%d %s %s %s %d 0 ll" % (k, side, o, a, y))
+                    if -(1 << 31) <= y < (1 << 31):
+                        cases.append("%d %s %s %s %d 0 int" % (k, side, o, a, y))
+                yy = y % (1 << w) if y >= 0 else 0
+                x_, y_ = (av, yy) if side == "mixsl" else (yy, av)
+                q = (x_ // y_) if y_ else 0
+                if y < 0:
+                    # rejected after the fix; on the code as written the operand becomes 2^64+y: keep the loop short
+                    yc = (y % (1 << 64)) % (1 << w)
+                    x2, y2 = (av, yc) if side == "mixsl" else (yc, av)
+                    q = (x2 // y2) if y2 else 0
+                if q <= 5000:
+                    for o in ["div", "mod"]:
+                        cases.append("%d %s %s %s %d %d ll" % (k, side, o, a, y, q + 2))
         for _ in range(8):
             cases.append("%d stream %s" % (k, rval(n)))
-        for op in ["default", "limits"]:
+        for _ in range(3):
+            cases.append("%d streamsb %s" % (k, rval(n)))
+        for _ in range(N // 5 + 5):
+            cases.append("%d hash %s" % (k, rval(n)))
+        for op in ["default", "limits", "consts"]:
             cases.append("%d %s" % (k, op))
         for op in ["max", "min", "digits"]:
             cases.append("%d %s" % (k, op))
@@ -149,6 +209,13 @@ def oracle_line(case, impl, spec):
             return None if d == 0 else "todouble(0) = %s" % d
         rel = abs(d - v) / v
         return None if rel < Fraction(1, 2 ** 32) else "todouble relative error %.3g >= 2^-32 (value 0x%x, got %s*2^%s)" % (float(rel), v, m, e)
+    if t[1] in ("mixsl", "mixsr") and int(t[4]) < 0:
+        return None if impl == "EXC Exception" else ("negative built-in operand %s not rejected (direct construction rejects it): "
+                                                     "result %s" % (t[4], impl))
+    if t[1] == "self" and impl.startswith("HANG"):
+        return "x %s= x does not return (the property demands: never looping); value semantics give %s" % (t[2], spec)
+    if t[1] == "hash":
+        return None          # the property fixes consistency only (hasheq); the bit-exact value is a model tie (corr)
     if t[1] == "hasheq":
         return None if impl == spec else "hash/equality inconsistent: %s" % impl
     return None if impl == spec else "impl result %s but exact arithmetic mod 2^w gives %s" % (impl, spec)
@@ -164,6 +231,12 @@ def sig_of(case):
         extra = ":zero-divisor" if int(t[3], 16) == 0 else ""
     if op == "touint":
         extra = ":n=1" if nd(k) == 1 else ""
+    if op in ("mixsl", "mixsr"):
+        return "C10:mixed-signed:%s" % ("negative" if int(t[4]) < 0 else "nonnegative")
+    if op == "streamsb":
+        return "C10:stream:showbase"
+    if op == "self":
+        return "C10:self-alias:%s" % t[2]
     return "C10:%s%s" % (op, extra)
 
 
@@ -184,14 +257,18 @@ def run(ctx):
     so = V.run_cases(ctx, [impl_san], [cases[i] for i in sub], tag="san", timeout=120 if ctx.quick else 600)
     ndis = nviol = 0
     ops = {}
+    persig = {}
     for i, (c, m, a) in enumerate(zip(cases, mo, io)):
         op = c.split()[1]; ops[op] = ops.get(op, 0) + 1
         mm, _, spec = m.partition(" | ")
         reason = oracle_line(c, a, spec)
         if reason is not None:
             nviol += 1
-            if nviol <= 200:
-                ctx.violation(sig_of(c), {"case": c, "impl": a, "model": mm, "spec": spec, "oracle": reason,
+            sg = sig_of(c)
+            persig[sg] = persig.get(sg, 0) + 1
+            # capped PER SIGNATURE: hits of a listed known finding must never crowd out a fresh violation
+            if persig[sg] <= 25:
+                ctx.violation(sg, {"case": c, "impl": a, "model": mm, "spec": spec, "oracle": reason,
                                           "replay_cmd": "bin/check C10 --replay <this file>"})
         elif a != mm and op != "todouble":
             ndis += 1
@@ -202,7 +279,7 @@ def run(ctx):
             ndis += 1
             ctx.violation("corr:C10/todouble", {"broken": "corr:C10/todouble", "case": c, "impl": a, "model": mm}, found_input=False)
         # the model itself must satisfy the spec (sanity of the theorem's reading)
-        if mm != spec and op != "todouble" and mm != "OUTOFFUEL":
+        if mm != spec and op not in ("todouble", "hash") and mm != "OUTOFFUEL":
             ctx.notes.append("model/spec mismatch on %s: %s vs %s" % (c, mm, spec))
     for j, i in enumerate(sub):
         if j < len(so) and so[j] != io[i]:
@@ -212,13 +289,15 @@ def run(ctx):
     ctx.coverage.update({
         "evaluations": len(cases), "distinct_nontrivial": distinct,
         "rule": "cases = corpus + exhaustive pairs over digit alphabet {0000,0001,7fff,8000,fffe,ffff}^n for n<=2 (thorough: n<=3) x binary ops and comparisons "
-                "+ seeded random operands for k in %s + all shift counts 0..w-1 + constructed divisions; non-trivial = some operand digit non-zero; distinct = distinct case lines" % KS,
+                "+ seeded random operands for k in %s + all shift counts 0..w-1 and counts >= w + constructed divisions (quotient 0, exact multiples, remainder b-1, "
+                "least sufficient fuel) + self-aliasing compound forms + signed/unsigned built-in operands on either side + hash values + all numeric_limits members "
+                "+ compiled constants; non-trivial = some operand digit non-zero; distinct = distinct case lines" % KS,
         "samples": cases[:2] + cases[len(cases) // 2: len(cases) // 2 + 2] + cases[-2:],
         "op_distribution": ops, "widths": KS, "impl_model_disagreements": ndis, "oracle_rejections": nviol,
         "sanitizer_cases": len(sub), "exhaustive": False,
         "traces_validated_against_impl": len(cases),
     })
-    ctx.assumptions += ["hash_range internals trusted (only: equal values hash equal)", "std::ldexp exact for in-range exponents",
+    ctx.assumptions += ["std::hash<uint16_t> is the identity (libstdc++); hash_combiner<8> modelled bit-exactly and compared on every run", "std::ldexp exact for in-range exponents",
                         "operands are written into the C++ object through its object representation (n little-endian uint16 digits)"]
 
 
